@@ -129,12 +129,25 @@ def perturbations(name, kind, cells, cons, rng):
     if 'rex' in cons and cons['rex'] is not None and kind in ('text', 'varchar'):
         # (an empty expression list - discovered from a column with no strings - is satisfied by nulls only)
         out.append(('rex', '@@ no expression matches this #'))
+        # a string that no expression matches only because of the case of its letters
+        import re as _re
+        for v_ in vals:
+            flipped = v_.swapcase()
+            if flipped != v_ and not any(_re.fullmatch(r_, flipped, _re.DOTALL) for r_ in cons['rex']):
+                out.append(('rex', flipped))
+                break
     if cons.get('sign') in ('positive', 'non-negative') and kind in ('integer', 'real'):
         out.append(('sign', -3))
     if cons.get('sign') in ('negative', 'non-positive') and kind in ('integer', 'real'):
         out.append(('sign', 4))
     if cons.get('sign') == 'zero' and kind in ('integer', 'real'):
         out.append(('sign', 9))
+    if kind == 'boolean' and vals:
+        # a flag column that is false (true) in every row, then one row that is not
+        if cons.get('max') == 0:
+            out.append(('max', 1))
+        if cons.get('min') == 1:
+            out.append(('min', 0))
     return out
 
 
@@ -184,7 +197,7 @@ def run(ctx):
             # ---- single-row perturbations
             for ci, (nm, kind, cells) in enumerate(cols):
                 cons = cdict['fields'].get(nm)
-                if not cons or kind == 'boolean':
+                if not cons:
                     continue
                 for pk, pv in perturbations(nm, kind, cells, cons, rng):
                     row = []
